@@ -2,6 +2,7 @@ import Drivers.Proto
 import St4sd.Model.Repl
 import St4sd.Model.ReplVars
 import St4sd.Model.ReplConf
+import St4sd.Model.ReplOver
 /-! Model driver for property C03: `expand` = resolution of the replicate/aggregate attributes in the scope
 chain of every component (`ReplVars.resolveAll`), then graph-level and text-level expansion of one workflow. -/
 open Lean Proto St4sd.Repl St4sd.Str
@@ -64,14 +65,63 @@ def parseStageVars (j : Json) : Except String (List (Nat × Vars)) :=
       | [i, ps] => return (← i.getNat?, ← parsePairs (← ps.getArr?).toList)
       | _ => throw "stage scope expected"
 
-/-- the resolved components (with their command lines) or the kind of the resolution error -/
-def parseComps (j : Json) : Except String (List Raw × (Except RErr (List (Comp × S)))) := do
-  let rs ← (← getArr j "comps").mapM parseRaw
-  let g ← getVars j "gvars"
-  let sv ← parseStageVars j
-  match resolveAll g (stageVars sv) (rs.map (·.1)) with
-  | .error e => return (rs.map (·.1), .error e)
-  | .ok cs => return (rs.map (·.1), .ok (cs.zip (rs.map (·.2))))
+/-- `null` | the block `override.<platform>` of a component: (structured part, restated command line) -/
+def parseOver (j : Json) : Except String (Option (Over × Option S)) :=
+  match j.getObjVal? "over" with
+  | .ok Json.null => pure none
+  | .error _ => pure none
+  | .ok o => do
+    let refs ← match o.getObjVal? "refs" with
+      | .ok Json.null => pure none
+      | .error _ => pure none
+      | .ok v => do
+        let l ← (← v.getArr?).toList.mapM parseRef
+        pure (some l)
+    let args ← getOptStr o "args"
+    return some ({ refs := refs, vars := ← getVars o "vars", replicate := ← getSpec o "repl",
+                   aggregate := ← getSpec o "agg" }, args.map String.toList)
+
+/-- a parsed component: as written, its block for the platform, and what `instance(platform)` makes of both -/
+structure PComp where
+  raw : Raw
+  args : S
+  over : Option (Over × Option S)
+
+def PComp.eff (c : PComp) : Raw := layerRaw c.raw (c.over.map (·.1))
+def PComp.effArgs (c : PComp) : S := ((c.over.bind (·.2)).getD c.args)
+def PComp.baseT (c : PComp) : TBlock := ⟨some (c.raw.refs.map render), some c.args, c.raw.vars⟩
+def PComp.overT (c : PComp) : TBlock :=
+  match c.over with
+  | none => noOver
+  | some (o, a) => ⟨o.refs.map (·.map render), a, o.vars⟩
+
+/-- the scopes of the platform: (global, stage ↦ variables) -/
+def parseScopes (j : Json) : Except String (Vars × (Nat → Vars)) := do
+  let dg ← getVars j "gvars"
+  let ds ← parseStageVars j
+  let pg ← getVars j "pgvars"
+  let ps ← match j.getObjVal? "psvars" with
+    | .ok Json.null => pure []
+    | .error _ => pure []
+    | .ok v => do
+      (← v.getArr?).toList.mapM fun e => do
+        match (← e.getArr?).toList with
+        | [i, ps] => return (← i.getNat?, ← parsePairs (← ps.getArr?).toList)
+        | _ => throw "stage scope expected"
+  return (platGlobal dg pg, fun i => platStage (stageVars ds i) (stageVars ps i) pg)
+
+/-- the resolved (effective) components with their command lines, or the kind of the resolution error -/
+def parseComps (j : Json) : Except String (List PComp × (Except RErr (List (Comp × S)))) := do
+  let pcs ← (← getArr j "comps").mapM fun cj => do
+    let (raw, args) ← parseRaw cj
+    return ({ raw := raw, args := args, over := ← parseOver cj } : PComp)
+  let (g, st) ← parseScopes j
+  match resolveAll g st (pcs.map (·.eff)) with
+  | .error e => return (pcs, .error e)
+  | .ok cs => return (pcs, .ok (cs.zip (pcs.map (·.effArgs))))
+
+def jblock (b : TBlock) : Json :=
+  jobj [("refs", jopt (fun l => jarr (l.map jchars)) b.refs), ("args", jopt jchars b.args), ("vars", jvars b.vars)]
 
 def cid (st : Nat) (nm : S) : Json := jstr (s!"stage{st}." ++ String.ofList nm)
 
@@ -79,7 +129,8 @@ def handle (j : Json) : Except String Json := do
   let op ← getStr j "op"
   match op with
   | "expand" =>
-    let (raws, res) ← parseComps j
+    let (pcs, res) ← parseComps j
+    let raws := pcs.map (·.eff)
     let inRefs := jarr (raws.map fun c => jarr (c.refs.map fun r => jchars (render r)))
     match res with
     | .error e =>
@@ -100,10 +151,12 @@ def handle (j : Json) : Except String Json := do
     | .ok out =>
       let t := (goText [] [] cs).getD []
       -- component-level variables of every emitted component (ReplVars.goVars), aligned with the text level
-      let vs := (goVars [] [] (wf.zip (raws.map (·.vars)))).getD []
-      let tj := (t.zip vs).map fun (o, v) => jobj [("id", cid o.stage o.name), ("refs", jarr (o.refs.map jchars)),
+      -- component fields + kept override block of every emitted component (ReplOver.goBlocks), aligned with the
+      -- text level (pieceBase_text); `layered` = what is read back through the platform layer (readBack)
+      let bs := (goBlocks [] [] (wf.zip (pcs.map fun c => (layerT c.baseT c.overT, c.overT)))).getD []
+      let tj := (t.zip bs).map fun (o, b) => jobj [("id", cid o.stage o.name), ("refs", jarr (o.refs.map jchars)),
         ("args", jchars o.args), ("replica", jopt jnat o.replica), ("replicate", jopt jnat o.repl),
-        ("vars", jvars v)]
+        ("vars", jvars b.1.vars), ("block", jblock b.2), ("layered", jblock (readBack b))]
       let gj := out.map fun o => jobj [("id", cid o.stage o.name), ("refs", jarr (o.refs.map fun r => jchars (render r))),
         ("producers", jarr ((o.refs.filter (·.isComp)).map fun r => cid r.stage r.name)),
         ("replica", jopt jnat o.replica), ("replicate", jopt jnat o.repl)]
